@@ -2,6 +2,7 @@
 # usage: tools/seed2_process.sh <tag> "<ID pkgdir>" ...   — second-round seeds delivered in /tmp/seed2-<ID>:
 # removes the breaker's worktree, evaluates each against its property's quick check, then confirms each.
 tag="$1"; shift
-for x in "$@"; do set -- $x; git -C /repo worktree remove --force /tmp/seed2wt-$1 2>/dev/null; done
-for x in "$@"; do set -- $x; /verif/tools/seed_eval.sh /tmp/seed2-$1 quick $1; done > /tmp/seedeval_r2$tag.log 2>&1
-for x in "$@"; do echo "$x"; done | xargs -P 2 -L 1 sh -c '/verif/tools/seed_confirm.sh /tmp/seed2-$0 $1' > /tmp/seedconfirm_r2$tag.log 2>&1
+items=("$@")
+for x in "${items[@]}"; do id=${x%% *}; git -C /repo worktree remove --force /tmp/seed2wt-$id 2>/dev/null; done
+for x in "${items[@]}"; do id=${x%% *}; /verif/tools/seed_eval.sh /tmp/seed2-$id quick $id; done > /tmp/seedeval_r2$tag.log 2>&1
+for x in "${items[@]}"; do echo "$x"; done | xargs -P 2 -L 1 sh -c '/verif/tools/seed_confirm.sh /tmp/seed2-$0 $1' > /tmp/seedconfirm_r2$tag.log 2>&1
